@@ -124,6 +124,17 @@ fn specs() -> Vec<RSpec> {
     let mut nsl = wire_lc(&long);
     let _ = &mut nsl;
     v.push(mk("NS a. -> <255-octet name>", a, 9, Rd::Ns(Ns::new(name(&long))), nsl));
+    // Label-PREFIX relation (the leading labels of one name are all labels of
+    // another: a. / a.a. / a.a.a.), next to the label-suffix relation the names
+    // above have. A trie keyed by leading labels (TreeCompressor) keeps such
+    // names in one branch, a suffix-keyed table does not: both need a menu
+    // in which a later, longer name sits below an earlier, surviving one.
+    let aa: &[&[u8]] = &[b"a", b"a"];
+    let aaa: &[&[u8]] = &[b"a", b"a", b"a"];
+    v.push(mk("NS a.a. -> a.a.a.", aa, 10, Rd::Ns(Ns::new(name(aaa))), wire_lc(aaa)));
+    let mut mx2 = vec![0, 20];
+    mx2.extend(wire_lc(aa));
+    v.push(mk("MX a. -> a.a.", a, 11, Rd::Mx(Mx::new(20, name(aa))), mx2));
     v
 }
 
